@@ -4,6 +4,7 @@
 // Preconditions respected by the generator: insert() only for absent keys (the property says
 // so; the map would store a duplicate), iterators are not used across updates.
 #include <map>
+#include <optional>
 #include <vector>
 #include <algorithm>
 #include <frg/hash_map.hpp>
@@ -104,6 +105,22 @@ void run(Ctx &c) {
 		c.check_san("C14");
 		VTRACK_POLL(c);
 	};
+	auto find_positions = [&]() {
+		// the full iteration order, then for some present keys: find(k) equals the walked iterator at k and ++ continues with the same successors
+		std::vector<uint64_t> order;
+		for(auto it = m->begin(); !(it == m->end()); ++it) { order.push_back(it->template get<0>()); if(order.size() > ref.size()) break; }
+		if(order.size() != ref.size()) return;      // reported by iterate()
+		size_t stride = order.size() > 12 ? order.size() / 12 : 1;
+		for(size_t pos = 0; pos < order.size(); pos += stride) {
+			auto f = m->find(order[pos]);
+			auto w = m->begin(); for(size_t j = 0; j < pos; j++) ++w;
+			VCHECK(c, "C14", f == w, "find(%llu) is not equal to the iterator that reaches that entry by walking from begin()", (unsigned long long)order[pos]);
+			size_t k = pos;
+			for(; !(f == m->end()) && k < order.size() + 1; ++f, ++k) VCHECK(c, "C14", k < order.size() && f->template get<0>() == order[k], "walking on from find(%llu): step %zu yields another entry than the iteration from begin()", (unsigned long long)order[pos], k - pos);
+			VCHECK(c, "C14", k == order.size(), "walking on from find(%llu) ends after %zu of %zu remaining entries", (unsigned long long)order[pos], k - pos, order.size() - pos);
+		}
+		c.tag("find-as-position");
+	};
 	auto iterate = [&]() {
 		std::map<uint64_t, int> seen;
 		size_t n = 0;
@@ -153,7 +170,7 @@ void run(Ctx &c) {
 			VCHECK(c, "C14", (bool)r == present, "remove(%llu) of a%s key returns %s", (unsigned long long)k, present ? " present" : "n absent", r ? "a value" : "null_opt");
 			if(present) { VCHECK(c, "C14", payload(*r) == ref[k], "remove(%llu) returned %d, stored value was %d", (unsigned long long)k, payload(*r), ref[k]); ref.erase(k); removed_any = true; if(ref.empty()) was_emptied = true; }
 			break; }
-		case 9: c.op("iterate"); iterate(); break;
+		case 9: c.op("iterate"); iterate(); find_positions(); break;
 		default: { unsigned n = 1 + t.pick(24); c.op("insert x%u", n); for(unsigned j = 0; j < n; j++) { uint64_t k = absent_key(); int x = nextv++; if(t.flip()) m->insert(k, V(x)); else { (*m)[k] = V(x); } ref[k] = x; } break; }
 		}
 		if(reg().allocs - allocs_before >= 2 && size_before > 0 && ref.size() > size_before) { rehash_with_entries = true; }
@@ -256,6 +273,38 @@ void run_alias(Ctx &c) {
 struct Header { long h0, h1; };
 struct PNode { int v; };
 struct Object : Header, PNode { int extra; };       // the PNode base does not sit at offset 0: Object* -> PNode* adjusts the pointer
+void run_optional_values(Ctx &c) {
+	auto &t = c.t;
+	using V = frg::optional<int>;
+	using Map = frg::hash_map<uint64_t, V, H, track_alloc>;
+	int mode = t.pick(7);
+	c.op("hash_map<uint64, optional<int>> hash-mode %d (present keys may hold a disengaged value)", mode);
+	c.tag("optional-valued-map");
+	Map *m = c.make<Map>(H{mode}, track_alloc{});
+	std::map<uint64_t, std::optional<int>> ref;
+	int nextv = 1;
+	unsigned nops = 2 + t.pick(40);
+	for(unsigned i = 0; i < nops; i++) {
+		uint64_t k = t.pick(12);
+		bool engaged = t.flip();
+		switch(t.pick(5)) {
+		case 0: case 1: if(!ref.count(k)) { int x = nextv++; c.op("insert(%llu, %s)", (unsigned long long)k, engaged ? "engaged" : "disengaged"); if(engaged) { m->insert(k, V(x)); ref[k] = x; } else { m->insert(k, V()); ref[k] = std::nullopt; } } break;
+		case 2: { int x = nextv++; c.op("map[%llu] = %s", (unsigned long long)k, engaged ? "engaged" : "disengaged"); (*m)[k] = engaged ? V(x) : V(); ref[k] = engaged ? std::optional<int>(x) : std::nullopt; break; }
+		case 3: { bool present = ref.count(k); c.op("remove(%llu) (%s%s)", (unsigned long long)k, present ? "present" : "absent", present && !ref[k] ? ", disengaged value" : "");
+			auto r = m->remove(k);
+			VCHECK(c, "C14", r.has_value() == present, "remove(%llu) of a%s key returns %s", (unsigned long long)k, present ? " present" : "n absent", r.has_value() ? "a value" : "null_opt (a present key whose value is a disengaged optional is still present)");
+			if(present) { VCHECK(c, "C14", r->has_value() == ref[k].has_value() && (!ref[k] || **r == *ref[k]), "remove(%llu) returned another value than the stored one", (unsigned long long)k); ref.erase(k); if(!r->has_value()) c.tag("removed-disengaged-value"); }
+			break; }
+		default: { V *g = m->get(k); bool present = ref.count(k); VCHECK(c, "C14", (g != nullptr) == present && (!present || (g->has_value() == ref[k].has_value() && (!ref[k] || **g == *ref[k]))), "get(%llu) disagrees with the reference", (unsigned long long)k); break; }
+		}
+		VCHECK(c, "C14", m->size() == ref.size(), "size() is %zu, reference %zu", m->size(), ref.size());
+	}
+	c.destroy(m);
+	c.check_san("C14");
+	VTRACK_END(c);
+	c.nontrivial = nops >= 10;
+}
+
 void run_keyzoo(Ctx &c) {
 	auto &t = c.t;
 	unsigned which = t.pick(5);
@@ -337,8 +386,9 @@ void run_keyzoo(Ctx &c) {
 } // namespace
 
 void verif_case(Ctx &c) {
-	unsigned kind = c.t.pick(6);
-	if(kind == 5) { if(c.focus() == "C16") run<Tracked>(c); else run_keyzoo(c); }
+	unsigned kind = c.t.pick(7);
+	if(kind == 6) { if(c.focus() == "C16") run<Tracked>(c); else run_optional_values(c); }
+	else if(kind == 5) { if(c.focus() == "C16") run<Tracked>(c); else run_keyzoo(c); }
 	else if(kind == 4) run_alias(c);
 	else if(kind < 2 && c.focus() != "C16") run<int>(c); else run<Tracked>(c);
 }
